@@ -133,7 +133,18 @@ void World::opEnc(const Item& op)
             typeChange = true;
     }
 
+    if (is("C10") && op.has("abort") && !specs.empty())
+    {
+        // fault: an earlier call over these packets, with another frame size, that never returned (exception out of the
+        // caller's iterator). C10: what it left behind must not show in the call that follows.
+        const size_t amax = static_cast<size_t>(std::max<int64_t>(25, op.get("abmax", static_cast<int64_t>(maxB))));
+        if (n.enc->encodeAborted(specs, std::min(minB, amax), amax, static_cast<size_t>(op.get("abort")), static_cast<int>(op.get("abwhere", 0))))
+            fault("encode-call-aborted-by-exception");
+        res.apiCalls++;
+    }
     std::vector<Bytes> frames = n.enc->encode(specs, minB, maxB, mode);
+    if (n.enc->shadowDiverged())
+        violate("life.fork-diverged", "a copy of the encoder given the same batch returned other frames than the original");
     res.apiCalls++;
     n.encodeCalls++;
     ev(0xE0C0 + frames.size());
@@ -445,6 +456,25 @@ void World::opRawSeg(const Item& op)
             fillContent(f.bytes.data() + wire::CMP_HDR + wire::MSG_HDR, id, off, len);
         if (trail && s.get("tfill", 0))
             fillContent(f.bytes.data() + wire::CMP_HDR + wire::MSG_HDR + len, id ^ 0x5A5A5A5Au, off, trail);
+        if (trail && s.get("tfill", 0) == 2)
+        {
+            // the bytes behind the segment hold WELL-FORMED unsegmented messages (after tpad filler bytes): they still are
+            // not part of anything - a segment is alone in its frame as far as the receiver is concerned
+            size_t pos = wire::CMP_HDR + wire::MSG_HDR + len + static_cast<size_t>(std::min<int64_t>(std::max<int64_t>(0, s.get("tpad", 0)), static_cast<int64_t>(trail)));
+            uint32_t q = 0;
+            while (pos + wire::MSG_HDR + 4 <= f.bytes.size())
+            {
+                wire::MsgHdr th;
+                th.ts = 0xABCD0000u + q;
+                th.id32 = 0x77;
+                th.flags = 0;
+                th.ptype = 0x20;
+                th.plen = static_cast<uint16_t>(std::min<size_t>(f.bytes.size() - pos - wire::MSG_HDR, 4 + (q % 3) * 8));
+                wire::writeMsgHdr(f.bytes.data() + pos, th);
+                pos += wire::MSG_HDR + th.plen;
+                ++q;
+            }
+        }
         off += static_cast<uint32_t>(len);
         f.isSegmentFrame = segs.size() > 1;
         f.expectKnown = !tooLong;
